@@ -2,7 +2,9 @@
 import numpy as np
 
 from xv.typegen import kinds_in, shape_sig, is_static, plain, build, has_refs
-from xv.model import compare, exc_kind, nodes, get_path, set_path, set_model, ar_sig, Env
+import xobjects as xo
+from xv.typegen import merge_caps
+from xv.model import get_model, compare, exc_kind, nodes, get_path, set_path, set_model, ar_sig, Env
 from xv.props.common import new_case, build_root, flush_contracts, ctxs
 
 ID = "C10"
@@ -11,8 +13,10 @@ N_QUICK, N_THOROUGH = 12000, 500000
 T_QUICK, T_THOROUGH = 70, 1500
 FLOORS = {"histories": 1500, "steps": 20000, "full_rereads": 40000, "op:leaf": 8000, "op:whole": 2000, "op:ref": 800,
           "growths": 500, "via:handle": 3000, "via:view": 3000, "via:nested": 2000, "via:stale": 1000,
-          "whole_from_xobject": 300}
-RULE = ("random type AST x value x placement; history of <=30 steps over {set scalar/string leaf of fitting size, set "
+          "whole_from_xobject": 300, "values_with_shorter_strings": 1500, "leaf_from_string_object": 300,
+          "nested_size_checks": 20000}
+RULE = ("random type AST x value x placement; history of <=30 steps over {set scalar/string leaf of fitting size (strings of "
+        "any utf-8 length up to the one they were created with, given as str or as an xo.String object), set "
         "whole nested array/struct of equal shape (plain data or an xobject living elsewhere), set reference (null / "
         "plain data / object in the same buffer), allocate until the buffer grows} through the constructor handle, a "
         "root view, a fresh nested view or a stale nested view taken earlier; after EVERY step the whole root object "
@@ -48,7 +52,13 @@ def run_case(w, rng):
             return
         view = c.cls._from_buffer(env.buf, h._offset)
         size0 = int(h._get_size())
+        # sizes of all nested compounds that are part of the root object itself (not behind a reference)
+        sizes0 = {}
+        for p_, l_, nt_, nv_ in nodes(t, c.mv, through_refs=False):
+            if p_ and nt_["k"] in ("st", "ar"):
+                sizes0[l_] = (p_, int(get_path(h, p_)._get_size()))
         mv = c.mv
+        caps = c.mv  # the value tree each piece of storage was created from (string capacities)
         stale = []
         ops = []
         w.count("histories")
@@ -80,13 +90,21 @@ def run_case(w, rng):
                     continue
                 p, l, nt, nv = rng.choice(cand)
                 k = nt["k"]
+                capv = get_model(t, caps, p)[1]
                 if op == "ref":
                     newv = c.vg.value(nt)
                 else:
-                    newv = c.vg.same_shape(nt, nv)
+                    newv = c.vg.same_shape(nt, nv, caps=capv)
+                    if _shorter(nt, newv, capv):
+                        w.count("values_with_shorter_strings")
                 arg = plain(nt, newv, rng, np_scalars=True)
                 how = "plain"
                 try:
+                    if op == "leaf" and k == "str" and rng.random() < 0.25:
+                        # an xo.String object (with its own, usually smaller, capacity) as the assigned value
+                        arg = xo.String(arg, _buffer=rng.choice([None, env.buf]))
+                        how = "string-object"
+                        w.count("leaf_from_string_object")
                     if op == "whole" and rng.random() < 0.3:
                         ncls = build(nt, c.cache)
                         arg = ncls(arg, _buffer=rng.choice([None, env.buf]))
@@ -124,6 +142,7 @@ def run_case(w, rng):
                 w.count("via:" + via)
                 hist.append([op, l, via, how, repr(arg)[:80]])
                 mv = set_model(t, mv, p, newv)
+                caps = set_model(t, caps, p, newv if op == "ref" else merge_caps(nt, capv, newv))
                 ops.append(op[0] + k[0])
                 if op == "ref" or (op == "whole" and has_refs(nt)):
                     # references at or below p were re-bound: views of the old referents are no longer part of the object
@@ -143,6 +162,14 @@ def run_case(w, rng):
             if env.neighbours_intact():
                 viol(f"after-{hist[-1][0]}:stamped-neighbour-damaged", str(env.neighbours_intact()), hist)
                 bad = True
+            if not bad:
+                for l_, (p_, sz) in sizes0.items():
+                    w.count("nested_size_checks")
+                    now = int(get_path(view, p_)._get_size())
+                    if now != sz:
+                        viol(f"after-{hist[-1][0]}:nested-size-changed", f"{l_}: {sz} -> {now}", hist)
+                        bad = True
+                        break
             if bad:
                 break
         w.case([shape_sig(t), "".join(ops[:10])], sample=dict(c.info, history=hist[:10]) if rng.random() < 0.004 else None,
@@ -150,6 +177,17 @@ def run_case(w, rng):
     finally:
         env.close()
         flush_contracts(w, c.info)
+
+
+def _shorter(t, newv, capv):
+    k = t["k"]
+    if k == "str":
+        return len(newv.encode("utf8")) < len(capv.encode("utf8"))
+    if k == "st":
+        return any(_shorter(ft, newv[fn], capv[fn]) for fn, ft in t["f"])
+    if k == "ar":
+        return any(_shorter(t["it"], newv.items[i], capv.items[i]) for i in newv.items)
+    return False
 
 
 def _is_target(label):
